@@ -452,6 +452,18 @@ func queryFingerprint(q *query.Query) string {
 	return sb.String()
 }
 
+// ill-formed dump files: none of them is a JSON array of objects
+var badFiles = []string{
+	"[{\"a\": 1}, {oops",
+	"[{\"_id\":\"00000000-0000-4000-8000-0000000000aa\",\"x\":1}",  // cut after a complete document
+	"[",                                                                // cut after the opening bracket
+	"[{\"_id\":\"00000000-0000-4000-8000-0000000000aa\",\"x\":1},", // cut after a comma
+	"{\"_id\":\"00000000-0000-4000-8000-0000000000aa\"}",             // an object, not an array
+	"",                                                                 // empty
+	"[1, 2]",                                                           // an array of non-objects
+	"[{\"_id\":\"00000000-0000-4000-8000-0000000000aa\",\"x\":1}, {\"_id\":\"00000000-0000-4000-8000-0000000000ab\"}", // two documents, no closing bracket
+}
+
 // ---------------------------------------------------------------- named updaters
 
 // idForm spells a UUID in another of the textual forms uuid.FromString accepts
@@ -982,7 +994,11 @@ func (x *Exec) Run(b *Backend, e E, genIds [][]byte) E {
 			content := toList(e["content"])
 			switch content[0].(string) {
 			case "bad":
-				return os.WriteFile(path, []byte("[{\"a\": 1}, {oops"), 0o644)
+				k := 0
+				if len(content) > 1 {
+					k = toInt(content[1])
+				}
+				return os.WriteFile(path, []byte(badFiles[k%len(badFiles)]), 0o644)
 			case "docs":
 				var objs []interface{}
 				for _, d := range toList(content[1]) {
